@@ -59,7 +59,7 @@ func queueModel(capacity int) porcupine.Model {
 			switch i.Op {
 			case "push":
 				if s.closed {
-					return false, s // the harness never pushes after close
+					return !o.OK, s // after Close a push must not be accepted (a refusal; whether it may panic instead is judged outside the model)
 				}
 				full := capacity > 0 && len(s.items)/4 >= capacity
 				if o.OK {
@@ -143,6 +143,10 @@ func history(c *vm.Ctx, r *vm.Rand, hi int, sigs map[uint64]bool) {
 		seeds[i] = r.Uint64()
 	}
 	var start, prodWG, consWG sync.WaitGroup
+	// only the mutex-based queue can be closed while producers push: ChannelQueue is a bare channel, and closing a
+	// channel concurrently with sends is a data race by the language's own rules (its closer acts after the producers)
+	racingCloser := (hi/len(queueKinds))%2 == 1 && qk.name == "linked"
+	var latePanics int32
 	start.Add(1)
 	for p := 0; p < P; p++ {
 		prodWG.Add(1)
@@ -154,7 +158,17 @@ func history(c *vm.Ctx, r *vm.Rand, hi int, sigs map[uint64]bool) {
 				v := uint32(p)<<16 | uint32(s)
 				perturb(lr)
 				t0 := now()
-				ok := q.Push(v)
+				ok := false
+				func() {
+					// a push that comes after Close may be refused or, by the queues' original contract, panic: both count as
+					// "not accepted" here; what must not happen is that the others are left blocked (park watch) or lose items
+					defer func() {
+						if recover() != nil {
+							atomic.AddInt32(&latePanics, 1)
+						}
+					}()
+					ok = q.Push(v)
+				}()
 				t1 := now()
 				recs[p] = append(recs[p], opRec{client: p, in: qIn{"push", v}, out: qOut{OK: ok}, call: t0, ret: t1})
 			}
@@ -180,14 +194,27 @@ func history(c *vm.Ctx, r *vm.Rand, hi int, sigs map[uint64]bool) {
 		}(k)
 	}
 	start.Done()
-	prodWG.Wait() // pushing on a closed queue panics by contract: the closer acts after the producers
 	lr := vm.NewRand(seeds[P+C])
+	if !racingCloser {
+		prodWG.Wait() // the closer acts after the producers
+	} else {
+		for k := lr.Intn(6); k > 0; k-- { // the closer races with the producers
+			perturb(lr)
+		}
+	}
 	perturb(lr)
 	t0 := now()
 	q.Close()
 	t1 := now()
 	recs[P+C] = append(recs[P+C], opRec{client: P + C, in: qIn{Op: "close"}, out: qOut{}, call: t0, ret: t1})
+	prodWG.Wait()
 	consWG.Wait() // quiescence: every consumer must return once producers and closer have returned
+	if racingCloser {
+		c.Cover("history.closer-races-with-producers")
+		if atomic.LoadInt32(&latePanics) > 0 {
+			c.Cover("history.late-push-panicked")
+		}
+	}
 	var ops []porcupine.Operation
 	var all []opRec
 	for _, rs := range recs {
@@ -219,7 +246,7 @@ func history(c *vm.Ctx, r *vm.Rand, hi int, sigs map[uint64]bool) {
 		for _, o := range all {
 			h = append(h, fmt.Sprintf("client %d: %s(%d) -> (%d,%v) [%d,%d]", o.client, o.in.Op, o.in.V, o.out.V, o.out.OK, o.call, o.ret))
 		}
-		return map[string]any{"queue": qk.name, "producers": P, "consumers": C, "gomaxprocs": procs, "history": h}
+		return map[string]any{"queue": qk.name, "producers": P, "consumers": C, "gomaxprocs": procs, "closer_races_with_producers": racingCloser, "late_pushes_that_panicked": atomic.LoadInt32(&latePanics), "history": h}
 	}
 	switch res {
 	case porcupine.Illegal:
@@ -849,6 +876,9 @@ func run(c *vm.Ctx) {
 		closeWithParked(c, qk, r.Range(1, 16))
 		c.Inflight(fmt.Sprintf("burst-one-each %s #%d", qk.name, i))
 		burstOneEach(c, qk, r.Range(2, 12))
+	}
+	for i := 0; i < c.Scale(6, 120); i++ {
+		botEcho(c, r)
 	}
 	for i := 0; i < c.Scale(8, 160); i++ {
 		c.Inflight("codecs")
